@@ -759,7 +759,10 @@ def build(gb, prog):
     cache = build.__dict__.setdefault("cache", {})
     if key in cache:
         return cache[key], ""
-    wd = os.path.join(verifpy.WORK, "mprog", prog["name"] + "_" + key)
+    # same directory as gb.build: the generated sources embed their path, so programs that the mutation does not
+    # touch hit the compilation cache of the unmutated run
+    wd = os.path.join(verifpy.WORK, "prog", prog["name"] + "_" +
+                      hashlib.sha1((prog["name"] + "\0" + prog["src"]).encode()).hexdigest()[:16])
     os.makedirs(wd, exist_ok=True)
     src = os.path.join(wd, prog["name"] + ".mfront")
     with open(src, "w") as f:
